@@ -569,7 +569,9 @@ def gen_input(rng, spec, depth=0):
             if "max_digits" in cd or "decimal_places" in cd:
                 v = rng.choice([0, 1, 12, 123, 1234, 99999, 0.5, 0.05, 1.5, 1.25, 12.345, 99.95, 999.5, 0.0009995, 1e16, 1e-7, -12.5,
                                 Decimal("1.50"), Decimal("0.000"), Decimal("12.3"), Decimal("1E+3"), Decimal("99.95"), Decimal("-0.01"),
-                                "1.50", "012", "1e2", "0.10"])
+                                "1.50", "012", "1e2", "0.10",
+                                # long / large values (more digits than the default decimal context carries)
+                                Decimal("1E+30"), Decimal("123456789012345678901234567890.12"), 1e30, "98765432109876543210987654321.5"])
                 return lambda v=v: v
         return V.pick(rng, oname, 0.1)[1]
     if k == "gen":
